@@ -117,7 +117,7 @@ class Step:
                         if g is v.grow:
                             canon = rev.get(fld, fld)
                             if L != canon and canon not in s.rec['lists']:
-                                del lists[L]; lists[canon] = g
+                                lists[canon] = g          # the local's own name stays valid as well
         s.lists = lists
 
     FIELD = {'feed_composition': 'feed_compositions'}
